@@ -296,7 +296,9 @@ ColProg(id, a, ka, b, kb, na, nb) ==       \* part a declares na with kind ka, p
 CollideProgs == << ColProg("X1", "i1", "exec", "own", "exec", NameFoo, NameFoo),                       \* contract and interface
                    ColProg("X2", "i1", "sudo", "i2", "sudo", <<"a","_","b">>, <<"a","_","_","b">>),     \* equal only after casing
                    ColProg("X3", "i2", "query", "own", "query", NameBar, NameBar),
-                   ColProg("X4", "i1", "exec", "i2", "sudo", NameFoo, NameFoo) >>                      \* same name, different kinds: no collision
+                   ColProg("X4", "i1", "exec", "i2", "sudo", NameFoo, NameFoo),
+                   \* a *generic* contract sharing a name with its interface, only defined (no entry points, no use): rejected all the same
+                   ColProg("X5", "i1", "exec", "own", "exec", NameFoo, NameFoo) @@ [generic |-> TRUE, define_only |-> TRUE] >>                      \* same name, different kinds: no collision
 
 (* the exhaustive small family: every slot holds a subset (<= 1 element) of SmallNames *)
 SmallParts == [i \in 1..(Ifaces + 1) |-> IF i = Ifaces + 1 THEN "own" ELSE PartIds[i]]
